@@ -417,6 +417,32 @@ def run(ck):
               "it never reach the peer", key_pred=lambda k: k.startswith("onReady/"), min_instances=2)
 
     # ---------------- R9: who may take something out of the pending-write table ----------------
+    # ---------------- R12: a write taken from the mailbox is filed ----------------
+    ck.rule("C06-R12", "C must-pass-through",
+            "in Transport::handleWriteQueue a write popped from the mailbox whose connection is alive (the isPeerFd edge) is put into that "
+            "connection's FIFO on every path to the next iteration: a second way round the push (no queue found for the descriptor, a "
+            "limit reached) drops the write silently -- never sent, its promise never settled", 1)
+    hw12 = lib.single(prog, T + "handleWriteQueue")
+    live = lib.result_edges(hw12, T + "isPeerFd", True)
+    ck.require(live, "handleWriteQueue: no test of isPeerFd found")
+    push12 = lambda e: e["k"] == "call" and e.base_callee() in ("std::deque::push_back", "std::deque::emplace_back", "std::deque::push_front") and "WriteEntry" in (e.get("callee") or "")
+    heads12 = {h for h, _b in cfg.natural_loops(hw12)}
+    lost12 = []
+    for bid, k in live:
+        def st12(st, ev):
+            return None if push12(ev) else st
+
+        def ed12(st, blk, kk, succ):
+            if succ in heads12:
+                lost12.append(blk)
+                return None
+            return st
+        ex12, _ = cfg.run_automaton(hw12, 0, st12, edge=ed12, start=hw12.blocks[bid].succs[k])
+        lost12 += [x for x in ex12 if x.kind != "throw"]
+    ck.ob("C06-R12", "handleWriteQueue/live-peer-write-is-filed", not lost12, hw12.loc, hw12,
+          "every path from the isPeerFd edge passes the push into the connection's FIFO" if not lost12 else
+          "a write for a live connection can go round the push into toWrite[fd] (next iteration or return reached without it): it is dropped")
+
     ck.rule("C06-R9", "D who-may-write (removing operations)",
             "entries leave Transport::toWrite only where the write they stand for has been dealt with: the drain routine (asyncWriteImpl and "
             "its clean-up lambda: fully sent, or failed and rejected) and the release path (removePeer). erase / clear / pop / assignment of "
